@@ -64,9 +64,6 @@ pub mod __private {
 
     #[cfg(feature = "error")]
     pub use crate::vendor::thiserror::aserror::AsDynError;
-
-    #[cfg(feature = "from_str")]
-    pub use crate::r#str::to_lowercase;
 }
 
 // The modules containing error types and other helpers.
